@@ -179,6 +179,70 @@ func (x *ctx) robust(dir, label, what string, live []byte) {
 	}
 }
 
+// liveRecover starts a store on the pre-transaction directory, puts the interrupted transaction's database and
+// journal files in place and runs Store.Recover.
+func (x *ctx) liveRecover(base, preDir string, im image, pre *oracle.Image, prePos [2]uint64, i int) {
+	jsrc := filepath.Join(im.dir, "dbs", "db", "journal")
+	if _, err := os.Stat(jsrc); err != nil {
+		return // no journal: nothing a running store would roll back
+	}
+	x.res.Opens++
+	dir := filepath.Join(base, fmt.Sprintf("live%03d", i))
+	_ = lab.CopyDir(preDir, dir)
+	defer lab.RemoveAll(dir)
+	n := lab.NewNode(lab.NodeConfig{Name: "P", ID: 0x1111, Dir: dir, Candidate: true, Leaser: litefs.NewStaticLeaser(true, "P", "http://P")})
+	what := "live-recover"
+	func() {
+		defer func() {
+			if p := recover(); p != nil {
+				st := debug.Stack()
+				x.viol(prog.PanicKey(p, st), "%s [%s]: panicked: %v\n%s", what, im.label, p, trim(st))
+			}
+		}()
+		if err := n.Start(); err != nil {
+			x.class(what + "/open-error")
+			return
+		}
+		defer func() {
+			defer func() { _ = recover() }()
+			_ = n.Stop()
+		}()
+		lab.WaitFor(time.Second, n.Store.IsPrimary)
+		db := n.DB("db")
+		if db == nil {
+			x.class(what + "/no-db")
+			return
+		}
+		_ = os.WriteFile(db.DatabasePath(), readFile(filepath.Join(im.dir, "dbs", "db", "database")), 0o666)
+		_ = os.WriteFile(db.JournalPath(), readFile(jsrc), 0o666)
+		ctx, cancel := context.WithTimeout(context.Background(), 5*time.Second)
+		err := n.Store.Recover(ctx)
+		cancel()
+		if err != nil {
+			x.viol("live-recover-error", "%s [%s]: Store.Recover on a state SQLite's commit protocol can leave behind failed: %v", what, im.label, err)
+			return
+		}
+		got, gerr := oracle.ReadLogicalImage(db.Path(), x.c.PageSize)
+		if gerr != nil {
+			x.viol("live-recover-unreadable", "%s [%s]: database unreadable after Store.Recover: %v", what, im.label, gerr)
+			return
+		}
+		if ok, d := got.Equal(pre); !ok && !(got.N() == 0 && pre.N() == 0) {
+			x.viol("live-recover-image", "%s [%s]: after Store.Recover the database is not the pre-transaction image: %s", what, im.label, d)
+		}
+		if p := db.Pos(); [2]uint64{uint64(p.TXID), uint64(p.PostApplyChecksum)} != prePos {
+			x.viol("live-recover-position", "%s [%s]: position after Store.Recover is %s, want (%d,%016x)", what, im.label, p, prePos[0], prePos[1])
+		}
+		if _, e := os.Stat(db.JournalPath()); e == nil {
+			x.viol("live-recover-journal-left", "%s [%s]: a journal file is left after Store.Recover", what, im.label)
+		}
+		if codes := n.ExitCodes(); len(codes) > 0 {
+			x.viol("exit/"+what, "%s [%s]: Store.Exit(%v)", what, im.label, codes)
+		}
+		x.class(what + "/recovered")
+	}()
+}
+
 func (x *ctx) judge(im image, what string) {
 	x.res.Opens++
 	var writes []int64
@@ -388,9 +452,19 @@ func runJournal(t *testing.T, c Case) (res Result) {
 		res.Images = len(imgs)
 		jpath := func(dir string) string { return filepath.Join(dir, "dbs", "db", "journal") }
 
+		pristine := filepath.Join(base, "pristine") // the directory as it was before the transaction's first step
+		if len(imgs) > 0 {
+			_ = lab.CopyDir(imgs[0].dir, pristine)
+		}
 		switch c.Mode {
 		case "legit":
 			for i, im := range imgs {
+				if i > 0 && (finalized < 0 || i <= finalized) {
+					// the same files left by an application that died while LiteFS keeps running: the next role change (or
+					// halt, export, import) recovers with the store's in-memory state of the pre-transaction database.
+					// (Before the image is judged: opening a store on it recovers it in place.)
+					x.liveRecover(base, pristine, im, pre, prePos, i)
+				}
 				x.judge(im, "interrupt")
 				// torn variants of the journal write performed by step i (difference between image i and i+1)
 				if i+1 < len(imgs) && (finalized < 0 || i < finalized) {
